@@ -2390,8 +2390,11 @@ class GtkDocCommentBlockWriter(object):
             lines = []
 
             # Identifier part
-            if block.name.startswith('SECTION') or block.name.startswith('ACTION'):
+            if block.name.startswith('SECTION:'):
                 lines.append(block.name)
+            elif block.name.startswith('ACTION:'):
+                # 'ACTION:Class:group.action' is the parser's name for 'Class|group.action'
+                lines.append('%s|%s' % tuple(block.name.split(':', 2)[1:]))
             else:
                 if block.annotations:
                     annotations = self._serialize_annotations(block.annotations)
